@@ -268,6 +268,13 @@ def find_closure(path, fn_selector, k):
                             continue
                         pe += 1
                 bstart = code[pe + 1]
+                # `|params| -> T { body }`: skip the return type (the body is then always a block)
+                if toks[bstart].kind == "punct" and toks[bstart].text == "->":
+                    q_ = pe + 2
+                    while q_ < len(code) and not (toks[code[q_]].kind == "punct" and toks[code[q_]].text == "{"):
+                        q_ += 1
+                    if q_ < len(code):
+                        bstart = code[q_]
                 if toks[bstart].kind == "punct" and toks[bstart].text == "{":
                     bend = match_close(toks, bstart)
                 else:
